@@ -21,7 +21,7 @@ QT_BASES = {
 }
 DIR_POOL = ["app", "widgets", "common", "app/sub", "lib/deep/er", "Other Dir", "app/sub/leaf"]
 NAME_POOL = ["Edit", "FancyEdit", "Sep", "Panel", "Gallery", "Card", "Row", "Knob", "Title", "Box", "Pane", "Tile", "Strip", "Hint",
-             "X1", "Long_Name_2"]
+             "X1", "Long_Name_2", "Éditeur", "Ωmega", "UIÉcran"]
 
 
 class Comp:
@@ -327,8 +327,9 @@ def run_cli(cwd, outdir, sources, lowercase=True):
 def read_outputs(base, outdir, src, lowercase=True):
     d, fn = os.path.split(src)
     stem = os.path.splitext(fn)[0]
-    ui = os.path.join(base, outdir, d, (stem.lower() if lowercase else stem) + ".ui")
-    h = os.path.join(base, outdir, d, ("uisupport_" + stem).lower() + ".h" if lowercase else "uisupport_" + stem + ".h")
+    low = "".join(ch.lower() if ch.isascii() else ch for ch in stem)     # the file name rule lower-cases ASCII letters only
+    ui = os.path.join(base, outdir, d, (low if lowercase else stem) + ".ui")
+    h = os.path.join(base, outdir, d, "uisupport_" + low + ".h" if lowercase else "uisupport_" + stem + ".h")
     return tuple(open(p, "rb").read() if os.path.exists(p) else None for p in (ui, h))
 
 
@@ -363,7 +364,7 @@ def judge_ui(v, proj, src, ui_bytes, lowercase, rp):
         if names.count(cls) > len(allowed[cls]) and cls not in inst_types:
             v.violation("customwidget-count", "%s: custom widget %s is listed %d times" % (src["path"], cls, names.count(cls)), rp)
         cands = [by_name[cls]] if cls in by_name else allowed[cls]
-        want_hdr = (cls.lower() if lowercase else cls) + ".h"
+        want_hdr = ("".join(ch.lower() if ch.isascii() else ch for ch in cls) if lowercase else cls) + ".h"   # ASCII-only, as the file name rule
         if ext not in [c.root for c in cands] or hdr != want_hdr:
             v.violation("customwidget-entry", "%s: <customwidget> %s has extends=%r header=%r, expected extends in %r header=%r"
                         % (src["path"], cls, ext, hdr, [c.root for c in cands], want_hdr), rp)
